@@ -189,3 +189,33 @@ Theorem C01_snd_partial_ack_old_refuted :
 Proof. exact TcpSndP.snd_partial_ack_refuted. Qed.
 Print Assumptions C01_snd_partial_ack_old_refuted.
 
+
+(* ---------------------------------------------------------------- both directions at once: the closed system
+   (Proofs/TcpNetP.v).  Two endpoints of the model joined by a network whose only power is to hand an
+   endpoint a copy of ANY frame the other one has emitted so far - any number of times, in any order,
+   arbitrarily late, or never (drop, duplicate, reorder, delay, replay of stale segments), never an
+   altered one; applications write, read, shut down and timers fire in any interleaving (sys_run
+   folds an arbitrary list of such moves).  For every ISS pair, every schedule, at every time:
+   what B's application has read is a prefix of what A's writes were accepted for, and vice versa. *)
+From NP Require Proofs.TcpNetP.
+
+Theorem C01_tcp_stream_prefix : forall issA issB a0 b0 ms,
+  TcpNetP.conn_init issA issB a0 b0 ->
+  let ea := fst (TcpNetP.sys_run a0 b0 ms) in
+  let eb := snd (TcpNetP.sys_run a0 b0 ms) in
+  len (TcpSndP.written a0 ea) < 2^30 -> len (TcpSndP.written b0 eb) < 2^30 ->
+  (exists rest, concat (TcpRcvP.reads_run b0 eb) ++ rest = TcpSndP.written a0 ea) /\
+  (exists rest, concat (TcpRcvP.reads_run a0 ea) ++ rest = TcpSndP.written b0 eb).
+Proof. exact TcpNetP.tcp_stream_prefix. Qed.
+Print Assumptions C01_tcp_stream_prefix.
+
+Theorem C01_tcp_stream_prefix_always : forall issA issB a0 b0 ms k,
+  TcpNetP.conn_init issA issB a0 b0 ->
+  let ms' := firstn k ms in
+  let ea := fst (TcpNetP.sys_run a0 b0 ms') in
+  let eb := snd (TcpNetP.sys_run a0 b0 ms') in
+  len (TcpSndP.written a0 ea) < 2^30 -> len (TcpSndP.written b0 eb) < 2^30 ->
+  (exists rest, concat (TcpRcvP.reads_run b0 eb) ++ rest = TcpSndP.written a0 ea) /\
+  (exists rest, concat (TcpRcvP.reads_run a0 ea) ++ rest = TcpSndP.written b0 eb).
+Proof. exact TcpNetP.tcp_stream_prefix_always. Qed.
+Print Assumptions C01_tcp_stream_prefix_always.
